@@ -313,9 +313,11 @@ def run(ctx):
         "delete_glyphs_inplace: the `Merge cluster backward` iteration has a theorem (C03_delin_backward_carries_flags: the run that "
         "takes over the deleted glyph's cluster carries the deleted glyph's flags); the other branches and the whole loop are the "
         "carry-exact oracle + flags-carry correspondence; through shape() by break-safety-di / concat-redistribution-di",
-        "apply_stch (Arabic shaper) is not modelled: that it flags mark + word is searched by break-safety-stch on synthetic and "
-        "corpus stch fonts; the class arabic-pcm-stch is no longer decided from the text but from the cut and the difference and "
-        "only applies to the concat experiment (flagslib.stch_attribution)",
+        "apply_stch (Arabic shaper) is modelled (Stch.lean: both scans, the fit arithmetic in Int, the flag call through Buf.lean's "
+        "unsafe_to_break, the copies and offsets; not: ensure() refusing the enlarged buffer, i32 wrap-around) and tied to the crate "
+        "by stch-prims (hook arabic::apply_stch_on); C03_stch_flags: mark + whole word are flagged.  Through shape(): "
+        "break-safety-stch on synthetic and corpus stch fonts; the class arabic-pcm-stch is decided from the cut and the "
+        "difference and only applies to the concat experiment (flagslib.stch_attribution)",
         "synthetic-font streams: DIFFs in fonts that can produce a multi-glyph sequence or run a nested lookup after a deleting "
         "one are attributed to the finding classes deleted-flag-carrier / nested-delete-drift from the recipe alone "
         "(over-approximation: a new defect that shows only in such fonts would be reported under that class); 6 fonts in 10 "
